@@ -37,6 +37,10 @@ function makeContext(req, state) {
   };
   Object.defineProperty(sandbox, 'log', { value: log, writable: true, configurable: true, enumerable: false });
   Object.defineProperty(sandbox, 'p', { value: p, writable: true, configurable: true, enumerable: false });
+  // Source text of functions is outside every property (esbuild reprints code): make it unobservable in
+  // the reference run and in the run of the output alike, so that programs which happen to stringify or
+  // compare functions stay comparable instead of having to be recognised and discarded.
+  vm.runInContext('Object.defineProperty(Function.prototype, "toString", { value: function toString() { if (typeof this !== "function") throw new TypeError("Function.prototype.toString requires that \'this\' be a Function"); return "function () { [source text hidden] }"; }, writable: true, configurable: true, enumerable: false });', ctx);
   if (req.globals) {
     // values are given as JS expression source evaluated inside the context
     const names = Object.keys(req.globals);
